@@ -19,6 +19,7 @@ Definition dispatch (e : sexp) : sexp :=
       else if tag_is t "builtin" then run_builtin_case args
       else if tag_is t "bridge" then run_bridge_case args
       else if tag_is t "textline" then run_textline_case args
+      else if tag_is t "esc" then run_esc_case args
       else if tag_is t "concurrent" then
         (* the model of a runner shares nothing: each case alone (Props/C18.v) *)
         tagged "all" (map (fun c => match untag c with
